@@ -630,6 +630,7 @@ func (fc *FnCtx) exec(in ssa.Instruction) {
 		fc.hookAnchor("make", fc.srcText(x.Pos()), x, []Val{fc.valOf(x.Size)}, nil)
 		r := fc.newRef(x, "chan")
 		fc.vals[x] = scalar(r, sInt, x.Type())
+		fc.hookAnchorAfter("make", fc.srcText(x.Pos()), x, []Val{fc.valOf(x.Size)}, fc.vals[x], nil)
 	case *ssa.MakeClosure:
 		fc.vals[x] = scalar(fc.fresh("closure", sInt), sInt, x.Type())
 	case *ssa.Lookup:
@@ -643,7 +644,8 @@ func (fc *FnCtx) exec(in ssa.Instruction) {
 	case *ssa.Select:
 		fc.execSelect(x)
 	case *ssa.Send:
-		fc.hookAnchor("send", fc.srcText(x.Pos()), x, nil, nil)
+		// anchor `at send(text)`: arg0 is the channel, arg1 the value sent
+		fc.hookAnchor("send", fc.srcText(x.Pos()), x, []Val{fc.valOf(x.Chan), fc.valOf(x.X)}, nil)
 		fc.blockingPoint("send", x.Pos())
 		for _, st := range fc.sentAt {
 			if st.instr == x {
